@@ -253,6 +253,29 @@ def ecdh(ctx, P):
         ctx.check('%s:ecdh:shared-secret-fixed-width:%s' % (P, p), 'R-lost', 'the ECDH shared secret returned by %s keeps its fixed width (it does not pass through an MPI / integer form that drops leading zero octets)' % p.split('::')[-1],
                   not lossy, function=p, missing=lossy or None)
     ctx.floor(P + ':ecdh:shared-secret-floor', 'functions deriving the ECDH shared secret', nz, 2)
+    # PKCS#5 unpadding of the unwrapped session key (RFC 9580 11.5 / RFC 8018): the padding octet N is in 1..=len; N = 0 is not a
+    # padding at all - accepting it returns the whole unwrapped block as key material, which an RFC implementation refuses
+    b = ctx.body('crypto::ecdh::derive_session_key')
+    if b is not None:
+        from rules.common import rdom, call_blocks
+        sinks = call_blocks(b, r'Vec::<.*>::truncate$')
+        # a DIRECT comparison of the padding octet with 0 (or `< 1`), not merely something that derives from it
+        from rules.common import direct_cmp_switches
+        from core import must_pass, guard_switches, fmt_path
+        def is_pad(kind, v):
+            return kind == 'place' and 'l' in v and has_origin(b.operand_origins(v), r'call:.*(::last|::expect)$') \
+                and (b.r['locals'][v['l']]['ty'] in ('&u8', 'u8'))
+        cands = []
+        for i, op, side in direct_cmp_switches(b, is_pad, lambda c: c in (0, 1)):
+            cands.append(i)
+        rejecting = set(g for g, _ in guard_switches(b, sinks, []))
+        gs = [i for i in cands if i in rejecting]
+        ok, wit = must_pass(b, sinks, gs) if sinks else (False, None)
+        ctx.check(P + ':ecdh:unpad-lower-bound', 'R-dom', 'ECDH unpadding refuses a padding octet of 0 (no padding) before it truncates the unwrapped key',
+                  bool(sinks) and ok, function=b.path, site=site(b, sinks[0]) if sinks else None, witness=fmt_path(b, wit),
+                  missing=None if (sinks and ok) else 'no rejecting comparison of the padding octet itself with 0 on the way to truncate(): `00` as last octet is read as "no padding" and the whole block becomes the key')
+        rdom(ctx, P + ':ecdh:unpad-upper-bound', b, sinks, [r'call:.*(::last|::expect)$', r'call:.*::len$|op:PtrMetadata|len'],
+             'ECDH unpadding refuses a padding octet larger than the unwrapped block before it truncates')
     users = sorted(p for p, r in ctx.f.bodies.items() if ctx.wrap(r).calls(r'crypto::ecdh::(kdf|build_ecdh_param)$') and 'ecdh' in p)
     ctx.check(P + ':ecdh:single-derivation', 'R-who', 'ECDH encryption and decryption derive the KEK through the same build_ecdh_param + kdf',
               any(u.endswith('derive_session_key') for u in users) and any(u.endswith('encrypt') for u in users), table=users)
